@@ -42,15 +42,16 @@ def run(ctx):
                   sample={"case": name, "atoms": [a.attrs["adp_type"] for a in atoms], "terms_in_Freal": len(Fr.num)})
         # argument wiring
         stl_calls = [l for l in log if l[0].endswith(".sintl")]
-        ok = len(stl_calls) == 1 and stl_calls[0][0] == "xfab.tools.sintl" and vkey(stl_calls[0][1][0]) == vkey(ucell) \
-            and vkey(stl_calls[0][1][1]) == vkey(hkl)
+        ok = len(stl_calls) >= 1 and all(c_[0] == "xfab.tools.sintl" and vkey(c_[1][0]) == vkey(ucell) and vkey(c_[1][1]) == vkey(hkl)
+                                         for c_ in stl_calls)
         ctx.check(ok, "C08:args:%s:sintl" % name, "stl is not tools.sintl(ucell, hkl) of the given cell and reflection", where)
         ff = [l for l in log if l[0] == "FormFactor"]
-        okf = [l[1][0] for l in ff] == [a.attrs["atomtype"] for a in atoms] and all(scalar(l[1][1]).equals(Rat.atom("stl")) for l in ff)
-        ctx.check(okf, "C08:args:%s:FormFactor" % name, "FormFactor is not called once per atom with (its type, stl)", where)
+        # (which type each term uses is part of the sum rule: the value of FormFactor carries the type it was asked for)
+        okf = {l[1][0] for l in ff} >= {a.attrs["atomtype"] for a in atoms} and all(scalar(l[1][1]).equals(Rat.atom("stl")) for l in ff)
+        ctx.check(okf, "C08:args:%s:FormFactor" % name, "FormFactor is not evaluated for every atom type at stl = sintl(ucell, hkl)", where)
         ci = [l for l in log if l[0].endswith(".cell_invert")]
         nani = sum(1 for a in atoms if a.attrs["adp_type"] == "Uani")
-        ctx.check(len(ci) == nani and all(l[0] == "xfab.tools.cell_invert" and vkey(l[1][0]) == vkey(ucell) for l in ci),
+        ctx.check((len(ci) >= 1 or not nani) and all(l[0] == "xfab.tools.cell_invert" and vkey(l[1][0]) == vkey(ucell) for l in ci),
                   "C08:args:%s:cell_invert" % name, "reciprocal cell for beta is not tools.cell_invert(ucell)", where)
     # Uij2betaij alone
     fn2 = mod.func("Uij2betaij"); ctx.saw(mod, fn2)
